@@ -100,7 +100,7 @@ HARNESSES = {
     },
     "eval": {
         "black_tables_are_mirrored_white_tables": {"complete": True, "note": "symbolic (stage, piece, square) over the real constant tables"},
-        "piece_square_sum_symmetric": {"complete": True, "note": "symbolic 64-bit occupancy, symbolic (stage, piece); loop bounded by operand width (unwind 65, unwinding assertions on)"},
+        "material_and_stage_are_colour_symmetric": {"complete": True, "note": "popcount / emptiness are invariant under the vertical flip (byte swap), symbolic bitboards"},
     },
     "zobrist": {
         "accessors_in_bounds_and_zero_rows": {"complete": True, "note": "symbolic (piece<7, square<64, color<=1) and any e.p. square"},
@@ -111,6 +111,8 @@ HARNESSES = {
     "rules": {
         "wf_preserved": {"complete": True, "note": "full symbolic position (12 bitboards, rights, side, e.p., clocks) and packed move; loop-free"},
         "make_move_emits_wf": {"complete": True, "note": "real Bitboard::make_move on a full symbolic position and a symbolic consistent request; loop-free"},
+        "make_all_uci_all_or_nothing_len2": {"complete": False, "bound": "move lists of length <= 2 (k <= 1 accepted moves, then one rejected); find_uci stubbed: the accepted answers are ANY move well-formed for the current position",
+                                             "note": "real make_all_uci / make_uci / make / unmake on a full symbolic position"},
         "make_is_rules_succ_and_unmake_restores": {"complete": True, "note": "real Bitboard::make / unmake on a full symbolic position and any packed move satisfying move_wf; loop-free"},
     },
 }
@@ -171,6 +173,7 @@ def run_set(set_name, harness_names=None, jobs=None, timeout=3600, playback=Fals
     repo = os.path.join(sdir, "repo")
     try:
         subprocess.run(["rsync", "-a", "--exclude", "/target", "--exclude", ".git", scratch.REPO + "/", repo + "/"], check=True)
+        scratch.freshen(repo)
         with open(os.path.join(repo, cfg["append_to"]), "a") as f:
             f.write("\n#[cfg(kani)]\n#[allow(unused_imports, dead_code, unused_variables, clippy::all)]\nmod verif_kani {\nuse super::*;\n" + cfg["module"] + "\n}\n")
         for extra_rel, extra_text in cfg.get("extra_appends", []):
